@@ -31,7 +31,7 @@ def run_seed(sid):
         subprocess.run(['git', '-C', '/repo', 'worktree', 'remove', '--force', wt], capture_output=True)
 
 results = {}
-with cf.ThreadPoolExecutor(max_workers=6) as ex:
+with cf.ThreadPoolExecutor(max_workers=8) as ex:
     for sid, det, err in ex.map(run_seed, seeds):
         results[sid] = (det, err)
         print(sid, 'ERR ' + err if det is None else (', '.join(f'{k}:{"/".join(v)}' for k, v in det.items()) or 'NOT DETECTED'), flush=True)
